@@ -1638,9 +1638,11 @@ plan("C20", c20, assumptions=A_COMMON + ["A-url: urlsplit(u).geturl() as oracle"
 import chan_fmt     # noqa: E402
 import chan_cli     # noqa: E402
 import chan_sys     # noqa: E402
+import chan_der     # noqa: E402
 
 plan("C12", chan_fmt.c12, **chan_fmt.PLAN12)
 plan("C13", chan_fmt.c13, **chan_fmt.PLAN13)
+plan("C16", chan_der.campaign, **chan_der.PLAN)
 plan("C18", chan_sys.campaign, **chan_sys.PLAN)
 plan("C19", chan_cli.campaign, **chan_cli.PLAN)
 
